@@ -199,7 +199,7 @@ def main(argv=None):
             bump(3)
             continue
         for cov, ok in r["covers"].items():
-            if not ok and not getattr(c, "allow_uncovered", ()) or (not ok and cov not in c.allow_uncovered):
+            if not ok and cov not in getattr(c, "allow_uncovered", ()):
                 lines.append(f"CHECKER-ERROR case={c.name}: cover '{cov}' unreachable (vacuous contract clause)")
                 bump(3)
         for v in r["verdicts"]:
